@@ -220,10 +220,8 @@ func GenConfig(r *rand.Rand, profile string) Config {
 	c.EthStartHeight = uint64(1000 + r.Intn(100000))
 	c.Replicas = 1
 	c.UnbondingSecs = pick(r, []int64{30, 120, 3600})
-	c.MaxValidators = uint32(c.NVals)
-	if r.Intn(3) == 0 && c.NVals > 1 {
-		c.MaxValidators = uint32(c.NVals - 1)
-	}
+	// genesis must not hold more bonded validators than slots; 0..2 spare slots for validators created later
+	c.MaxValidators = uint32(c.NVals + r.Intn(3))
 	for u := 0; u < c.NUsers; u++ {
 		if r.Intn(2) == 0 {
 			c.HolderTier = append(c.HolderTier, -1)
